@@ -1,5 +1,7 @@
 package quic
 
+import "sync"
+
 import "errors"
 
 // C30 — QUIC stream buffers (pipe) store exactly the bytes written.
@@ -39,7 +41,9 @@ type c30model struct {
 }
 
 func c30setChunk(c int) {
-	pipebufPool.New = func() any { return &pipebuf{b: make([]byte, c)} }
+	// a fresh pool, not only a new constructor: natively the pool may still hold chunks of another size that an
+	// earlier vector (of the other harness) released, and sync.Pool hands them out depending on GC timing
+	pipebufPool = sync.Pool{New: func() any { return &pipebuf{b: make([]byte, c)} }}
 }
 
 // c30inv: representation invariant of a pipe whose offsets are base+delta with chunk size c.
